@@ -7,6 +7,9 @@ import SigmaVerif.Model.SStr
   configuration: an escape character makes the next character literal, the wildcard tokens
   stand for wildcards, everything else is itself; a quoted literal ends at the first unescaped
   quote.
+* `decodeBare` — the reading of a literal emitted WITHOUT quotes by a backend that has a string
+  quote (conditional quoting): the same token reading, and an unescaped quote string inside the
+  bare word is a string delimiter of the target, i.e. the literal is malformed.
 * `reRead`/`reMatch` — the reading of the regular-expression fragment `to_regex` emits.
 * `decodeField` — the target language's reading of a rendered field name; a quoted name is read
   strictly (`readQuotedField`): escape-aware, and the first unescaped quote string ends the name,
@@ -102,6 +105,45 @@ def decodeQuoted (k : Conv) (q : Str) (t : Str) : Option SStr :=
   match stripPrefix q t with
   | some body => decodeQuotedBody k q (body.length + 1) body
   | none => none
+
+/-- reading of an UNQUOTED literal (a bare word) in a target language whose string quote is `q`
+(non-empty): token by token like `decodeBody`, but the quote string keeps its meaning inside a bare
+word — an unescaped occurrence at a token boundary opens/closes a string there, i.e. a source
+character would act as a target metacharacter: the literal is malformed (`none`). -/
+def decodeBareBody (k : Conv) (q : Str) : Nat → Str → Option SStr
+  | _, [] => some []
+  | 0, _ :: _ => none
+  | f+1, t@(c :: rest) =>
+    match stripPrefix q t with
+    | some _ => none                    -- an unescaped quote inside a bare word
+    | none =>
+      let tryEsc : Option (Part × Str) :=
+        match k.esc with
+        | some e => if e.isEmpty then none else
+            match stripPrefix e t with
+            | some (d :: r) => some (.lit d, r)
+            | _ => none
+        | none => none
+      let tryTok (tok : Option Str) (p : Part) : Option (Part × Str) :=
+        match tok with
+        | some m => if m.isEmpty then none else (stripPrefix m t).map (fun r => (p, r))
+        | none => none
+      let next : Part × Str :=
+        match tryEsc with
+        | some r => r
+        | none =>
+          match tryTok k.multi .star with
+          | some r => r
+          | none =>
+            match tryTok k.single .qm with
+            | some r => r
+            | none => (.lit c, rest)
+      (decodeBareBody k q f next.2).map (next.1 :: ·)
+
+/-- reading of a literal that was emitted WITHOUT quotes by a backend whose string quote is `q`:
+the language has no string quote (`q` empty) — plain `decode`; otherwise `decodeBareBody`. -/
+def decodeBare (k : Conv) (q : Str) (t : Str) : Option SStr :=
+  if q.isEmpty then decode k t else decodeBareBody k q (t.length + 1) t
 
 /-- the value with the filtered characters removed (what the backend configuration asks for) -/
 def filtered (k : Conv) (s : SStr) : SStr :=
